@@ -38,7 +38,7 @@ func (c Case) coq() string {
 const btPrelude = `From Coq Require Import List NArith ZArith.
 Import ListNotations.
 From Emu.Common Require Import Bytes Str.
-From Emu.BT Require Import Types Server Check EnumC03.
+From Emu.BT Require Import Types Server Check EnumC03 Conc Bulk ConcCheck.
 `
 
 var tmpRoot string
